@@ -13,13 +13,13 @@ Rec == ndJsonDeserialize(IOEnv.TRACE)
 VARIABLES l, failed
 vars == <<l, failed>>
 
-Body == {"minus", "plus", "zero"}
+Body == {"minus", "plus", "zero", "cin", "m_ours", "m_anc", "m_theirs", "m_end"}   \* (in this mode conflict markers are hunk lines)
 HeaderLines == {"diff", "index", "newfile", "delfile", "simil", "renfrom", "rento", "copyfrom", "copyto", "oldmode",
                 "newmode", "binary", "mmm", "ppp"}
 Exempt(e, i) ==
   LET c == e.cls[i] o == {e.over[k] : k \in DOMAIN e.over} IN
   \/ "markers" \in o /\ c \in Body
-  \/ "numbers" \in o /\ c \in Body
+  \/ "numbers" \in o /\ c \in Body \cup {"blank"}    \* (an empty line inside a combined hunk is an unchanged line)
   \/ "tabs" \in o /\ e.tab[i]
   \/ "omit-commit" \in o /\ c = "commit"
   \/ "omit-file" \in o /\ c \in HeaderLines
